@@ -760,6 +760,11 @@ func c05InboundRequests(run *ev.Run) {
 			if len(d.Problems) > 0 || d.Err != nil {
 				detail["problems"] = d.Problems
 				bad("response", "conformant request not answered with a well-formed success")
+				continue
+			}
+			if got := res.Header.Get("Content-Type"); got != ct {
+				detail["response_content_type"] = got
+				bad("content-type-echo", fmt.Sprintf("request Content-Type %q answered with Content-Type %q; the response must echo the request's", ct, got))
 			}
 		}
 	})
